@@ -19,6 +19,15 @@ FMAX = sys.float_info.max
 NONE = {'j': 'none'}
 
 
+def safe(fn, arg):
+    """run fn(arg) in a pool worker; exceptions of frappy classes cannot be unpickled by the parent"""
+    try:
+        return fn(arg)
+    except Exception as e:   # noqa
+        import traceback
+        raise RuntimeError('worker failed: %r\n%s' % (e, traceback.format_exc())) from None
+
+
 def key(x):
     return json.dumps(x, sort_keys=True, separators=(',', ':'))
 
@@ -841,7 +850,7 @@ def rt_children(dt, av):
 # ------------------------------------------------------------------- TLC as the judge
 
 SPEC_FIELDS = ('kind', 'dt', 'c', 'p', 'path', 'out', 'v', 'j', 'v1', 'v2', 'ts', 'v3', 't2same', 'cs', 'cssame',
-               'a', 'b', 'passes', 'd1', 'd2', 'same', 'probes', 'before', 'after', 'what')
+               'a', 'b', 'passes', 'd1', 'd2', 'd2x', 'd3', 'probes', 'before', 'after')
 
 
 def _judge_chunk(recs):
@@ -1057,12 +1066,14 @@ def equiv_records(dt, probes, extra=None):
                     diff.append({'c': c, 'path': path, 'orig': outs[0], 'rebuilt': outs[1], 'copy': outs[2]})
     recs = [dict(base, kind='equiv', d1=d1, d2=d2, d2x=d2x, d3=d3, probes=diff[:5])]
     if 'copy' in objs:
-        before = describe(obj)
+        def state():    # the datainfo and the repr (which also shows what is not exported, e.g. the enum name)
+            return {'j': 'obj', 'kv': [{'k': 'datainfo', 'v': describe(obj)}, {'k': 'repr', 'v': {'j': 'text', 's': repr(obj)}}]}
+        before = state()
         try:
             what = mutate_everything(objs['copy'])
         except Exception as e:   # noqa
             what = ['raised ' + type(e).__name__]
-        recs.append(dict(base, kind='alias', before=before, after=describe(obj), what=sorted(set(what))))
+        recs.append(dict(base, kind='alias', before=before, after=state(), what=sorted(set(what))))
     return recs
 
 
